@@ -93,7 +93,7 @@ fn gen_c08(seed: u64, k: usize) -> (String, &'static str) {
         out.push_str(line);
     }
     if rng.chance(1, 2) {
-        out.push_str(&format!("local tbl = {{{}\t-- stylua: ignore{}\tkeep   =   'as is'  ,{}\tother   =   2,{}\t-- stylua: ignore{}\t[ 'k' ]   =   {{1,2,   3}}{}}}{}", nl, nl, nl, nl, nl, nl, nl));
+        out.push_str(&format!("local tbl = {{{}\t-- stylua: ignore{}\tkeep   =   'as is'  ,{}\tother   =   2,{}\t-- stylua: ignore{}\tfn   =   function()  local   u   =   1{}x   =   u  end,{}\t-- stylua: ignore{}\t[ 'k' ]   =   {{1,2,   3}}{}}}{}", nl, nl, nl, nl, nl, nl, nl, nl, nl, nl));
     }
     (out, knobs.syn)
 }
@@ -126,16 +126,20 @@ pub fn main(args: &[String]) {
         let v = syntax(syn);
         let items = match collect(&src, v) { Some(x) => x, None => continue };
         let mut rng = Rng(seed ^ (k as u64).wrapping_mul(0x2545F4914F6CDD1D) ^ 0x89);
-        for c in 0..2 {
-            let words = if c == 0 { vec![format!("syntax={}", syn)] } else { crate::run::random_config(&mut rng, syn, false) };
+        // C08 has a third run per program: the default configuration with a range drawn anywhere (mid-token, inside an ignored
+        // node): whatever the range, an ignored node comes out as written
+        for c in 0..(if which == "c08" { 3 } else { 2 }) {
+            let words = if c != 1 { vec![format!("syntax={}", syn)] } else { crate::run::random_config(&mut rng, syn, false) };
             let wrefs: Vec<&str> = words.iter().map(|s| s.as_str()).collect();
             let cfg = config(&wrefs);
             let id = format!("g{}.{}", k, c);
             if which == "c08" {
                 cases += 1;
-                let o = match format_guarded(&src, cfg, None) { Outcome::Ok(o) => o, _ => { writeln!(out, "CASE {} {} {} - {} failed", id, syn, words.join(";"), hex(src.as_bytes())).unwrap(); continue } };
-                let oitems = match collect(&o, v) { Some(x) => x, None => { writeln!(out, "CASE {} {} {} - {} noparse {}", id, syn, words.join(";"), hex(src.as_bytes()), hex(o.as_bytes())).unwrap(); continue } };
-                writeln!(out, "CASE {} {} {} - {} ok {}", id, syn, words.join(";"), hex(src.as_bytes()), hex(o.as_bytes())).unwrap();
+                let range = if c == 2 { let x = rng.below(src.len() + 1); let y = x + rng.below(src.len() - x + 1); Some((x, if rng.chance(1, 2) { src.len() } else { y })) } else { None };
+                let rtxt = range.map_or("-".to_string(), |(a, b)| format!("{}:{}", a, b));
+                let o = match format_guarded(&src, cfg, range.map(|(a, b)| stylua_lib::Range::from_values(Some(a), Some(b)))) { Outcome::Ok(o) => o, _ => { writeln!(out, "CASE {} {} {} {} {} failed", id, syn, words.join(";"), rtxt, hex(src.as_bytes())).unwrap(); continue } };
+                let oitems = match collect(&o, v) { Some(x) => x, None => { writeln!(out, "CASE {} {} {} {} {} noparse {}", id, syn, words.join(";"), rtxt, hex(src.as_bytes()), hex(o.as_bytes())).unwrap(); continue } };
+                writeln!(out, "CASE {} {} {} {} {} ok {}", id, syn, words.join(";"), rtxt, hex(src.as_bytes()), hex(o.as_bytes())).unwrap();
                 for it in items.iter().filter(|x| x.skip) {
                     // only outermost skipped nodes are compared (what is inside moves with them)
                     if items.iter().any(|o2| o2.skip && o2.start <= it.start && it.end <= o2.end && (o2.start, o2.end) != (it.start, it.end)) { continue; }
